@@ -5,6 +5,7 @@ mod gen;
 mod util;
 
 mod c01;
+mod c02;
 
 use serde_json::json;
 use std::sync::Arc;
@@ -97,6 +98,7 @@ fn main() {
     let ctx = Ctx { family: family.clone(), seed, batch, nbatch, thorough, only_case, scale, rep: rep.clone(), opts };
     match family.as_str() {
         "c01" => c01::run(&ctx),
+        "c02" => c02::run(&ctx),
         _ => {
             eprintln!("unknown family {}", family);
             std::process::exit(2);
@@ -108,6 +110,7 @@ fn main() {
 fn roles(args: &[String]) -> i32 {
     match args.first().map(|s| s.as_str()) {
         Some("c01-sender") => c01::role_sender(&args[1..]),
+        Some("c02-sender") => c02::role_sender(&args[1..]),
         Some("lsfd") => {
             // unrelated child: print inherited descriptors
             for (fd, t) in util::fd_table() {
